@@ -165,8 +165,16 @@ def run(prog, ctx):
     for ref in touched:
         b = cfg.block_of(ref)
 
+        gm = prog.globals.get("messages")
+        no_holes = gm is not None and gm.init_list_len() is not None and len([m9 for m9 in gm.init_strings() if m9]) == gm.init_list_len()
+
         def out_of_range(lit, bb, i):
-            return lit is not None and lit.kind == "lt" and render(lit.lhs) == pname and not lit.pol
+            if lit is not None and lit.kind == "lt" and (render(lit.lhs) == pname or render(lit.lhs.strip()) == pname) and not lit.pol:
+                return True
+            # `messages[code] == NULL` (a code without text) cannot hold for a valid code when the table has a text for every index
+            if no_holes and lit is not None and lit.kind == "truth" and lit.atom == "messages[%s]" % pname and not lit.pol:
+                return True
+            return False
         ok, _ = cfg.all_paths_cut(b, out_of_range)
         if ok:
             ctx.ok("T2", "static text buffer only for out-of-range codes", ref.where, "every path carries !(%s < N)" % pname)
@@ -269,6 +277,12 @@ def run(prog, ctx):
             if r.k == "CallExpr" and r.j.get("callee") in GROUP_LIST_FUNCS and l.k == "MemberExpr" and l.j.get("member") == "group":
                 ctx.ok("T4", inst, st.where, "group name owned by the group list passed as first argument (%s)" % render(r.call_args()[0]))
                 continue
+            if r.k == "DeclRefExpr" and r.j.get("dk") == "local" and l.k == "MemberExpr" and l.j.get("member") == "group":
+                from sa.dataflow import ReachingDefs as _RDg
+                dsg = _RDg(f).reaching(r.j["name"], st)
+                if dsg and all(d.rhs is not None and d.rhs.strip().k == "CallExpr" and d.rhs.strip().j.get("callee") in GROUP_LIST_FUNCS for d in dsg):
+                    ctx.ok("T4", inst, st.where, "group name owned by the group list (%s holds the result of %s())" % (r.j["name"], dsg[0].rhs.strip().j.get("callee")))
+                    continue
             if r.k == "StringLiteral":
                 ctx.ok("T4", inst, st.where, "string literal (immutable)")
                 continue
